@@ -9,7 +9,7 @@ from nbsym import engine as E
 ID = "C06"
 TITLE = "extract_read_variants keeps exactly the alignments of the sample's read groups that pass MAPQ / duplicate / QC-fail / supplementary filters, one row per read name with mates merged; cells are the aligned bases; reference mismatches always raise; DP/RCOUNT/RCALLS/SNVDP are the corresponding counts"
 TECHNIQUE = 'symbolic execution of extract_read_variants against pysam contract stubs; expected matrix as a z3 fold over all alignment variables; witnesses replayed on synthetic BAMs through real pysam'
-ENCODED = ["mchap.io.loci.Locus.set_sequence", "mchap.io.loci.Locus.set_variants", "mchap.io.loci._merge_snps", "mchap.io.loci.Locus.validate_reference_alleles",
+ENCODED = ["mchap.io.bam.encode_read_distributions", "mchap.encoding.integer.transcode.as_probabilistic", "mchap.io.loci.Locus.set_sequence", "mchap.io.loci.Locus.set_variants", "mchap.io.loci._merge_snps", "mchap.io.loci.Locus.validate_reference_alleles",
            "mchap.io.bam.extract_read_variants", "mchap.io.bam.encode_read_alleles", "mchap.io.bam.encode_read_distributions",
            "mchap.application.baseclass.program.encode_sample_reads", "mchap.encoding.character.transcode.as_allelic", "mchap.encoding.character.sequence.depth",
            "mchap.encoding.integer.transcode.as_probabilistic", "mchap.mset.unique_counts"]
@@ -17,7 +17,7 @@ STUBS = ["pysam.AlignmentFile / AlignedSegment -> contract stubs: header['RG'] l
          "everything inside pysam/htslib (BAM/CRAM decoding, CIGAR -> aligned pairs, fetch overlap, clipping) is outside the claim"]
 ASSUMES = ["the expected matrix is a z3 term over ALL read variables (fold over alignments in file order); the obligation is pc => expected == observed, so attributes the code never looked at are universally quantified",
            "bases range over {REF, ALT, N}; read names over 2 values; 3 read groups (two for sample A, one for sample B)"]
-BOUNDS = {"quick": "SNV file vs FASTA: 2 records (thorough 3) at 2 positions, possibly sharing one, REF in {A,C}, any ALT, FASTA bases in {A,C}, sequence-first and variants-first; 2 alignments x 1 SNV, read groups {rg0->A, rg2->B}, bases {REF, ALT} (thorough: 3 read groups, bases {REF, ALT, N}), four combinations of the keep flags (thorough: all eight), MAPQ and threshold symbolic in 0..2, id field SM and ID, either sample; pool of two samples; reference mismatch injected at any aligned site",
+BOUNDS = {"quick": "read probabilities: every call pattern of 2 reads x 2 SNVs (2 and 3 alleles) with a symbolic error rate; SNV file vs FASTA: 2 records (thorough 3) at 2 positions, possibly sharing one, REF in {A,C}, any ALT, FASTA bases in {A,C}, sequence-first and variants-first; 2 alignments x 1 SNV, read groups {rg0->A, rg2->B}, bases {REF, ALT} (thorough: 3 read groups, bases {REF, ALT, N}), four combinations of the keep flags (thorough: all eight), MAPQ and threshold symbolic in 0..2, id field SM and ID, either sample; pool of two samples; reference mismatch injected at any aligned site",
           "thorough": "2 alignments x 2 SNVs (all eight keep-flag settings, each sample / read-group id, reference mismatch injected) and 3 alignments x 1 SNV (keep flags all on / all off, mismatch); SNV file vs FASTA with 3 records; shared-file layouts with 3 alignments"}
 OUTSIDE = "htslib decoding, CIGAR handling, fetch overlap semantics, CRAM reference lookup (pysam); phred-based probabilities (float)"
 TASKS_PER_CHILD = 2
@@ -36,6 +36,7 @@ def configs(tier):
         out.append(dict(group="encode", k=2, ns=1, small=True))
         out.append(dict(group="encode", k=2, ns=1, small=True, layout="two"))
         out.append(dict(group="locus-ref", n_rec=2))
+        out.append(dict(group="dists"))
         return out
     for k, ns in [(2, 2), (3, 1)]:
         for idf in ("SM", "ID"):
@@ -50,6 +51,7 @@ def configs(tier):
     out.append(dict(group="encode", k=3, ns=1, small=True, layout="two"))
     out.append(dict(group="locus-ref", n_rec=2))
     out.append(dict(group="locus-ref", n_rec=3))
+    out.append(dict(group="dists"))
     return out
 
 
@@ -209,7 +211,9 @@ def run_config(c, col):
     warnings.simplefilter("ignore")
     prof = E.Profile()
     with prof:
-        {"extract": _run_extract, "encode": _run_encode, "locus-ref": _run_locus_ref}[c["group"]](c, col)
+        if c["group"] == "dists":
+            E.cfg.concrete_floats = False
+        {"extract": _run_extract, "encode": _run_encode, "locus-ref": _run_locus_ref, "dists": _run_dists}[c["group"]](c, col)
     col.functions |= set(prof.names())
     E.cfg.concrete_floats = False
 
@@ -412,6 +416,82 @@ def _run_locus_ref(c, col):
             col.ok("a record whose REF base disagrees with the FASTA is reported as an error (whichever of sequence / variants is set first, also for the second record at a position)")
 
 
+def _run_dists(c, col):
+    """allele calls -> probabilities fed to the likelihood (encode_read_distributions / as_probabilistic) with a SYMBOLIC error
+    rate: the called allele gets 1 - e, every other nucleotide e / 3, a missing call is NaN in every listed allele and a
+    non-allele column is 0 -- for every call pattern of 2 reads x 2 SNVs with 2 and 3 alleles"""
+    bam = E.load("mchap.io.bam")
+    site = "mchap.io.bam.encode_read_distributions"
+    nal = [2, 3]
+
+    class L:
+        def count_alleles(self):
+            return list(nal)
+
+    def body(ctx):
+        e = E.fresh_real(ctx, "e", 0, 1, lo_strict=False)
+        calls = rnp.array([[int(E.SymInt(E.fresh_int(ctx, "c%d_%d" % (r, j), -1, nal[j] - 1))) for j in range(2)] for r in range(2)])
+        out = bam.encode_read_distributions(L(), calls, quals=None, error_rate=E.SymReal(e))
+        return e, calls, out
+
+    first = True
+    for pr in E.explore(body, stats=col.stats):
+        if pr.exc is not None:
+            col.fail(site, "exception", shape=dict(group="dists"), witness=dict(exc=repr(pr.exc)), desc="raised %r" % (pr.exc,))
+            continue
+        col.path()
+        if first:
+            col.reachable(pr.ctx)
+            first = False
+        e, calls, out = pr.value
+        claims, shape_ok = [], out.shape == (2, 2, 3)
+        for r in range(2):
+            for j in range(2):
+                for a in range(3):
+                    v = out[r, j, a] if shape_ok else None
+                    isnan = bool(v != v) if not isinstance(v, E.Sym) else False
+                    if a >= nal[j]:
+                        # a non-allele column carries no probability (for a missing call it may be 0 or NaN: never read)
+                        if isnan:
+                            claims.append(z3.BoolVal(bool(calls[r, j] < 0)))
+                        else:
+                            claims.append(E.real_term(v) == 0)
+                    elif calls[r, j] < 0:
+                        claims.append(z3.BoolVal(isnan))
+                    elif isnan:
+                        claims.append(z3.BoolVal(False))
+                    else:
+                        claims.append(E.real_term(v) == ((1 - e) if a == calls[r, j] else e / 3))
+        col.check(pr.ctx, z3.And(claims) if shape_ok else z3.BoolVal(False), site, "read-probabilities", shape=dict(group="dists"), witness=dict(calls=calls.tolist()),
+                  desc="P(observed base | allele): 1 - e for the called allele, e/3 for the other nucleotides, NaN for a missing call, 0 for non-allele columns (symbolic error rate e)")
+
+
+def _replay_dists(v):
+    from mchap.io.bam import encode_read_distributions
+
+    w = v.get("witness") or {}
+    m = v.get("model") or {}
+    e = float(m.get("e", 0.1)) or 0.1
+    calls = rnp.array(w.get("calls", [[0, 2], [-1, 1]]))
+
+    class L:
+        def count_alleles(self):
+            return [2, 3]
+
+    out = encode_read_distributions(L(), calls, quals=None, error_rate=e)
+    bad = []
+    for r in range(2):
+        for j in range(2):
+            for a in range(3):
+                v_ = out[r, j, a]
+                want = 0.0 if a >= [2, 3][j] else float("nan") if calls[r, j] < 0 else (1 - e if a == calls[r, j] else e / 3)
+                if a >= [2, 3][j] and calls[r, j] < 0 and (v_ != v_ or v_ == 0):
+                    continue
+                if (want != want) != (v_ != v_) or (want == want and abs(v_ - want) > 1e-12):
+                    bad.append((r, j, a, float(v_), want))
+    return bool(bad), "error rate %r, calls %s: (read, site, allele, got, expected) %s" % (e, calls.tolist(), bad[:3])
+
+
 def _replay_locus_ref(v):
     from checks import wiring
 
@@ -506,6 +586,8 @@ def replay(v):
     m = v.get("model") or (v.get("witness") or {}).get("model") or {}
     if c["group"] == "locus-ref":
         return _replay_locus_ref(v)
+    if c["group"] == "dists":
+        return _replay_dists(v)
     if c["group"] != "extract":
         return _replay_encode(v)
     k, idf, want, mm, ns = c["k"], c["idf"], c["want"], c["mismatch"], c.get("ns", 2)
